@@ -2,7 +2,7 @@
 internal call is judged too); the driver adds the idempotence differential on a copy."""
 from vmon import gen
 from vmon import oracle as orc
-from vmon.checks.common import fail, random_prefix, apply_prefix
+from vmon.checks.common import wrapper_agrees, obs, fail, random_prefix, apply_prefix
 
 PROP = "C07"
 MONITORS = ["normalise"]
@@ -68,6 +68,21 @@ def make_case(rng, i, tier):
                 msgs.append(["ks", rng.choice(["C", "G", "F#"])])
             else:
                 msgs.append(["cc", c, 7, rng.randint(1, 100)])
+    if i % 3 == 1:
+        # signature messages carry a channel like every other message (set_channel rewrites it, merged tracks bring their own):
+        # a signature governs the whole sequence whichever channel number its message has
+        import random
+        r2 = random.Random(f"c07-sigchan:{i}")
+        for m in msgs:
+            if m[0] in ("ts", "ks"):
+                m.append(r2.choice(list(chans) + [0, 1, 5]))
+        if r2.random() < 0.5:
+            # a signature restated by another channel
+            sig = [m for m in msgs if m[0] in ("ts", "ks")]
+            if sig:
+                m = list(r2.choice(sig))
+                m[-1] = (m[-1] + 1) % 16
+                msgs.insert(r2.randrange(msgs.index([x for x in msgs if x[:len(x) - 1] == m[:-1]][0]) + 1, len(msgs) + 1), m)
     prefix = [op for op in random_prefix(rng, n=(1, 2)) if op["op"] in ("copy", "read_abs", "read_rel", "set_channel", "pad", "scale", "iter_rel_velocity_edit", "transpose", "normalise", "concat_copy")] \
         if i % 5 == 4 else []
     return {"msgs": msgs, "paired": paired, "prefix": prefix}
@@ -84,6 +99,7 @@ def run(case, ctx):
     for k in kinds:
         LOG.n(f"c07.{k}_input")
     n0 = len(s._rel._messages)
+    twin = s.copy()
     s.normalise()
     t1, d1 = orc.view_rel(s.rel)
     ev1 = orc.events(t1)
@@ -96,6 +112,11 @@ def run(case, ctx):
     ta, da = orc.view_abs(s.abs)
     if orc.events(ta) != ev1 or da != d1:
         fails.append(fail("views_disagree_after_normalise", (da, d1)))
+
+    def inner(t):
+        t.rel.normalise_relative()
+        t.invalidate_abs()
+    fails += wrapper_agrees(twin, inner, obs(s), "normalise")
     return {"nontrivial": ev1 != ev0 or len(s.rel._messages) != n0, "fails": fails,
             "shape": (case["paired"], tuple(sorted(kinds)), len(set(m[1] for m in case["msgs"] if m[0] in ("on", "off")))),
             "observed": {"problems_in_input": sorted(kinds), "events_in": len(ev0), "events_out": len(ev1)}}
